@@ -71,6 +71,8 @@ def oracle(line, out):
     if tok[0] == "hist":
         from .c13 import oracle as o13
         return o13(line, out)
+    if tok[0] == "gen_step":
+        return common.bulk_oracle(line, out)
     if tok[0] == "w_bypath":
         # watch-only wallet built from an extended public key: decode the key independently, derive with CKDpub
         raw = b58check_dec(unstr(tok[1].split(":")[1]))
@@ -188,8 +190,19 @@ def _hist_cases(rng, tier):
         yield "hist xkey:%s %s" % (sx(xk), ";".join(ops)), "shared-public-object-history"
 
 
+def _bulk_cases(rng, tier):
+    """the bulk entry point with every tuple shape `range(*interval)` accepts (one, two, three elements; negative,
+    zero and large steps; descending across 2^31): a bulk answer is the list of the single answers or a refusal"""
+    for _ in range(2 if tier == "quick" else 40):
+        spec, k, chain, depth = rand_parent(rng)
+        pub = neuter(spec, k)
+        for ar, a, b, st in common.bulk_interval_shapes(rng):
+            yield "gen_step %s %d %d %d %d -" % (pub, ar, a, b, st), "bulk-interval-shape"
+
+
 def cases(rng, tier):
     yield from _cases_main(rng, tier)
+    yield from _bulk_cases(rng, tier)
     yield from _hist_cases(rng, tier)
     yield from collision_cases(rng, tier, neuter_fn=neuter)
     yield from wallet_cases(rng, tier)
